@@ -394,6 +394,35 @@ func copyTimePrograms() ([]*progCase, []string) {
 			tag = "literal"
 		}
 	}
+	// an element that is itself an assignment or a match yielding a variable: the container gets the value, not the variable
+	tag = "literal"
+	for li, l := range locs {
+		if li >= 3 {
+			continue
+		}
+		x := l.x
+		asg := func() Expr { return Asg("=", x(), N("1")) }
+		plus := func() Expr { return Asg("+=", x(), N("1")) }
+		viaMatch := func() Expr {
+			return &MatchExpr{Subj: N("1"), Cases: []MatchCase{{Pats: []Expr{N("1")}, Body: x()}}}
+		}
+		for _, el := range []func() Expr{asg, plus, viaMatch} {
+			for _, mk := range []func(e Expr) Expr{
+				func(e Expr) Expr { return Arr_(e, S("k")) },
+				func(e Expr) Expr { return &ObjLit{Keys: []string{"id", "name"}, Vals: []Expr{e, S("n")}} },
+				func(e Expr) Expr { return CallE(V("f3"), e, N("0"), N("0")) },
+				func(e Expr) Expr { return CallE(Mem(Arr_(), "push"), e) },
+			} {
+				// build the container, change the location, show both; change the container's element, show both
+				add(l, Ex(Asg("=", V("r"), mk(el()))), showS("r", V("r")), Blk(Ex(Asg("=", x(), N("50")))), showS("r", V("r")), showS("loc", x()),
+					&If{Cond: &IsExpr{V("r"), "array"}, Then: Blk(Ex(Asg("=", Idx(V("r"), N("0")), N("60")))), Else: Blk(Ex(Asg("=", Mem(V("r"), "id"), N("60"))))}, showS("r", V("r")), showS("loc", x()))
+			}
+		}
+	}
+	// the per-record idiom: every record gets its own number
+	out = append(out, &progCase{P: &Program{Funcs: funcs, Rules: []*Rule{{Kind: "BEGIN", Body: Blk(Ex(Asg("=", V("recs"), Arr_())))}, {Body: Blk(Ex(CallE(Mem(V("recs"), "push"), &ObjLit{Keys: []string{"id", "name"}, Vals: []Expr{Asg("+=", V("n"), N("1")), V("$")}})))},
+		{Kind: "END", Body: Blk(showS("recs", V("recs")), showS("n", V("n")))}}}, Files: []inFile{{"in.json", `["a","b","c"]`}}})
+	tags = append(tags, "literal")
 	tag = "return"
 	g := loc{init: []Stmt{Ex(Asg("=", V("count"), N("0"))), Ex(Asg("=", V("g"), &ObjLit{Keys: []string{"k"}, Vals: []Expr{N("1")}}))}}
 	for _, c := range []func() Expr{func() Expr { return CallE(V("cur")) }, func() Expr { return CallE(V("curk")) }} {
@@ -458,7 +487,7 @@ func init() {
 		Rule: "documents (all trees of depth <= 1, thorough also depth 2) x target paths of <= 3 steps over .a .b ['a'] and the indices 0 1 -1 2 5 0.9 -0.5 1048577 -10^19, rooted at $, at a variable aliasing the document and at a fresh variable, x 7 stores (=, +=, prefix and postfix ++/--, storing a container) and 9 reads (plain, non-mutating methods, operators); " +
 			"after the operation the program shows the result, $, the alias and the fresh variable, ENDFILE shows $ again and the JSON output is compared with the model's document; " +
 			"all histories of <= L statements over 14 aliasing / mutating statements (copy, share, index and member stores, push/pop through aliases, a mutating callee, loop variables, padding) on three documents, showing every variable after every statement; all histories of L statements over 12 object statements (inserts through an alias or a callee, iteration and printing through the other name, pluck, rebinding); " +
-			"all histories of L' statements over 26 statements drawn from every corner of the language (arrays, objects, strings, pluck, split, sort, match, for-in, functions with default parameters, printf, stores into $), run once per element of a two-element input; every target path of <= 2 steps x operation also as ONE expression site over the sequence of all documents (forward and reversed); COPY TIME: 5 scalar locations x 7 effects x 10 list forms (array / object literal, arguments of a user function, printf and chained push) holding read, effect, read of one location, and calls returning a global by value next to calls changing it in 10 forms; oracle: whole-store equality with the reference interpreter (DESIGN.md 3.10); states = (read/write, root, path length, outcome); non-trivial = same",
+			"all histories of L' statements over 26 statements drawn from every corner of the language (arrays, objects, strings, pluck, split, sort, match, for-in, functions with default parameters, printf, stores into $), run once per element of a two-element input; every target path of <= 2 steps x operation also as ONE expression site over the sequence of all documents (forward and reversed); COPY TIME: 5 scalar locations x 7 effects x 10 list forms (array / object literal, arguments of a user function, printf and chained push) holding read, effect, read of one location, an element that is itself an assignment or a match yielding a variable, followed by changes on either side; and calls returning a global by value next to calls changing it in 10 forms; oracle: whole-store equality with the reference interpreter (DESIGN.md 3.10); states = (read/write, root, path length, outcome); non-trivial = same",
 		Plan: func(t fw.Tier) int {
 			return c09Base() + 1
 		},
